@@ -112,6 +112,7 @@ class Run:
         self.drift = 0
         self.drift_ops = {}
         self.generated_histories = 0
+        self.generated_texts = 0
         self.undecided = 0
 
     def cleanup(self):
@@ -161,6 +162,25 @@ class Run:
         shutil.rmtree(d, ignore_errors=True)
         self.generated_histories = len(hs)
 
+    def export_texts(self):
+        """Spec -> code: TLC simulates Gen_Text (walks of the grammar automaton Text!Step: sentences, sentence prefixes
+        and prefixes derailed by one symbol); written to textS.ndjson for the 'gentext' driver."""
+        d = os.path.join(self.work, "gen_text")
+        copy_spec(d)
+        per_worker = 250 if self.tier == "quick" else 4000
+        rc, out = run_tlc(d, "Gen_Text", workers=4, heap="3g", timeout=1800,
+                          extra=["-simulate", "num=%d" % per_worker, "-depth", "24", "-seed", str(self.seed)])
+        ss = set()
+        for m in re.finditer(r'<<"TEXT", <<([0-9, ]*)>>>>', out):
+            ss.add(tuple(int(x) for x in m.group(1).split(",") if x.strip()))
+        if not ss or "Error:" in out:
+            raise Infra("text generation failed:\n" + out[-3000:])
+        with open(os.path.join(self.domain, "textS.ndjson"), "w") as f:
+            for t in sorted(ss):
+                f.write(json.dumps(list(t), separators=(",", ":")) + "\n")
+        shutil.rmtree(d, ignore_errors=True)
+        self.generated_texts = len(ss)
+
     # -- spec-only model checking -------------------------------------------
     def model_check(self, module, cfg=None, workers=16, heap="6g", timeout=3600, extra=(), expect_violation=False):
         d = os.path.join(self.work, "mc_" + (cfg or module).replace(".cfg", ""))
@@ -195,6 +215,8 @@ class Run:
         outdir = outdir or os.path.join(self.work, "tr_" + driver)
         if driver == "genhist" and not os.path.exists(os.path.join(self.domain, "histS.ndjson")):
             self.export_histories()
+        if driver == "gentext" and not os.path.exists(os.path.join(self.domain, "textS.ndjson")):
+            self.export_texts()
         e = dict(os.environ, VERIF_DOMAIN_DIR=self.domain, VERIF_REPO=REPO)
         if sel:
             e["VERIF_VEC_OPS"] = sel
@@ -358,6 +380,7 @@ def write_evidence(run, level, violations, rule, extra=None, assumptions=None, n
         "alg_model_drift": run.drift,
         "alg_model_drift_by_op": run.drift_ops,
         "tlc_generated_histories_replayed": run.generated_histories,
+        "tlc_generated_strings_replayed": run.generated_texts,
         "undecided_events": run.undecided,
     }
     if extra:
